@@ -5,6 +5,7 @@ import itertools
 import json
 import random
 import signal
+import os
 import sys
 from typing import Any, Callable
 
@@ -2014,6 +2015,16 @@ def run_c10(ctx: fw.Ctx) -> None:
     subs = sorted({src for _, src in sublanguage_programs(not ctx.quick)})
     eval_accept(st_s, subs)
     st_s.exhaustive = True
+    st_c = ctx.stream("texts that only the lexer can make invalid: long comments and long strings that never close or close at another level, a `#` line that is not at the very beginning")
+    ctexts = []
+    for op_, cl in (("[[", "]]"), ("[=[", "]=]"), ("[==[", "]==]")):
+        for wrong in ("", "]]", "]=]", "]==]", "]"):
+            if wrong == cl:
+                continue
+            ctexts += [f"x = 1 --{op_} disabled:{wrong}\nlaunch()\n", f"--{op_} a {wrong}\nx = 1", f"x = {op_} s {wrong}\ny = 2", f"f() --{op_}{wrong}", f"--{op_} ok {cl} x = 1 --{op_} open {wrong}"]
+    ctexts += ["  #t = 1\nx = 2", "\t#!/usr/bin/lua\nx = 2", "\n#!/usr/bin/lua\nx = 2", " #", "x = 1\n#!shebang\ny = 2", "#!/usr/bin/lua\n#second\nx = 1", "#", "#\n", "#x\n#y", "--c\n#x\ny = 1"]
+    eval_accept(st_c, ctexts)
+    st_c.exhaustive = True
     st_a = ctx.stream("every character string up to a length over a numeral/name/dot alphabet, written WITHOUT blanks (what touches a numeral decides whether it is one)")
     adj = sorted({pre + "".join(c) + suf for k in range(0, (5 if ctx.quick else 6)) for c in itertools.product(["1", "_", "a", ".", "e", "x", "0", "+", "(", ")", "p", "\u0663"], repeat=k)
                   for pre, suf in (("x = ", ""), ("x = 1", "()"))})
@@ -2887,6 +2898,9 @@ FAULTS = {
     # a leading dot in front of a module that does exist: still an empty first component
     "dot-existing": 'require(".{EXISTING}")',
     "dotdot-existing": 'require("..{EXISTING}")',
+    # the same faults with a comment between `require` and its arguments (a textual pre-scan for require calls does not see them)
+    "missing-after-comment": 'require --[[c]] ("does.not.exist")',
+    "two-arguments-after-comment": 'require --[==[ c ]==] ("m0", "m0")',
 }
 FAULT_SITES = [t.replace("{R2}", "{F}").replace("{R}", "{F}").replace("{E}", "{F}").replace("{k}", "") for t in REQ_POSITIONS] + ["return {F}", "return 1, {F}"]
 
@@ -3016,6 +3030,20 @@ def run_c12(ctx: fw.Ctx) -> None:
                 elif res.token.line != text.count("\n", 0, text.index(call)) + 1:
                     st_ret.fail("InvalidDependencyError does not designate the offending call", dict(case, token_line=res.token.line))
     st_ret.exhaustive = True
+    st_deep = ctx.stream("a chain of 45 files, each requiring the next, the fault in the last one (statement level and expression level)")
+    for level in ("stmt", "expr"):
+        for fault in ("missing-module", "two-arguments"):
+            files = {"main.lua": "require('c1')\n" if level == "stmt" else "local v = require('c1')\n"}
+            for i in range(1, 45):
+                files[f"c{i}.lua"] = (f"in_c{i}()\nrequire('c{i + 1}')\n" if level == "stmt" else f"in_c{i}()\nreturn require('c{i + 1}')\n")
+            files["c45.lua"] = "in_c45()\n" + FAULTS[fault] + "\n"
+            files["m0.lua"] = "in_m0()\n"
+            case = {"kind": "filetree", "files": files, "dirs": [], "main": "main.lua", "search": []}
+            st_deep.record(case, key=json.dumps(case, sort_keys=True))
+            status, res = resolve_tree(case)
+            if status != "dep":
+                st_deep.fail(f"an uninlinable require 45 files down the chain: {status} {res!r}"[:300], case)
+    st_deep.exhaustive = True
     lookalike_stream(ctx)
     st_rel = ctx.stream("a module that exists only next to the requiring file's *requirer* is not found (lookup starts at the file's own directory)")
     hows = ["local m = require('lib.mod')", "f(require 'lib.mod')", "return require('lib.mod')", "require('lib.mod')", "t = { k = require('lib.mod') }", "local m = require('lib.mod').x"]
@@ -3139,6 +3167,14 @@ class ApiWorld:
         self.root = tree_root
 
     def call(self, op: tuple) -> str:
+        before = (sys.getrecursionlimit(), sys.getswitchinterval(), sys.flags.utf8_mode, os.getcwd())
+        res = self._call(op)
+        after = (sys.getrecursionlimit(), sys.getswitchinterval(), sys.flags.utf8_mode, os.getcwd())
+        if before != after:
+            return f"MUTATED-PROCESS-STATE (recursion limit / switch interval / working directory): {before} -> {after}"
+        return res
+
+    def _call(self, op: tuple) -> str:
         kind = op[0]
         with quiet():
             try:
@@ -3229,7 +3265,9 @@ def random_history(r: random.Random, n: int) -> list[tuple]:
     progs_bad = ["x = ", "x = 'abc", "end", "x = 1 end y = 2", "f(", "x = 0x", "local function", "a.b", "x = \"\\q\"",
                  # failures that strike while the lexer holds pending state (comments read and not yet delivered, an open hint)
                  "x = 1\n-- helpers\n--[[ TODO never closed", "-- pending\n--[==[ open", "-- c1\n--[[ c2 ]] 'unclosed", "f(g(h(1,\n-- c\n--[[ open",
-                 "-- c\nx = [[ never closed", "t = {1, {2, -- c\n\"abc\n"]
+                 "-- c\nx = [[ never closed", "t = {1, {2, -- c\n\"abc\n",
+                 # deeply bracketed inputs that fail (anything a parse adjusts for deep input must be put back when it fails)
+                 "x = " + "{" * 30, "x = " + "(" * 30 + "1", "f(" * 28]
     typed_text = "x as y is z as is"
     ops = []
     nlex = 0
